@@ -31,6 +31,8 @@ import MajoranaVerif.Proofs.Mvp61Cfg
 import MajoranaVerif.Proofs.Mvp63MapOrder
 import MajoranaVerif.Proofs.Mvp70
 import MajoranaVerif.Proofs.Mvp70Witness
+import MajoranaVerif.Proofs.Mvp71
+import MajoranaVerif.Proofs.Mvp80
 open GoInt Model.Seq Proofs.Seq
 
 namespace Props.C12
@@ -706,7 +708,7 @@ whose execution `e` is neither a return nor a memory change, queues `e` for writ
 theorem mvp61_forwarding_sends_result {app : App} {s s' : Model.Mvp61.State} {i : Nat} {eu : Model.Mvp61.ExecUnit}
     {r : Model.Mvp61.Runner} {c : Int} {out : Model.Mvp61.EuOut} {ch : Nat} {e : Gen.Execution}
     (hf : r.forwarder = some ch)
-    (he : (Model.Mvp61.instrOf s r).run s.ctx app.labels r.pc eu.memory 0#32 = .ok e)
+    (he : (Model.Mvp61.instrOf s r).run s.ctx app.labels r.pc eu.memory (if s.v71 then r.seq else 0#32) = .ok e)
     (hR : e.Return = false) (hM : e.MemoryChange = false)
     (h : Model.Mvp61.euRun app s i eu r c = .ok (s', out)) :
     out = .none ∧ s'.chans = s.chans ++ [(ch, e.RegisterValue)] ∧ s'.ctx = s.ctx ∧
@@ -1057,5 +1059,74 @@ theorem mvp70_msi_keeps_store :
   obtain ⟨a, _, _, _, b, _, c⟩ := Proofs.Mvp70Witness.obs_eq Proofs.Mvp70Witness.mem_p1
   obtain ⟨d, _, _, e, f, _, g⟩ := Proofs.Mvp70Witness.obs_eq Proofs.Mvp70Witness.mem_p2
   exact ⟨a, b, c, d, e, f, g⟩
+
+end Props.C12
+
+/-! ## MVP-7.1 (package M71): lower bound, and the control unit's synchronisation cycle
+
+`Model.Mvp71` is `Model.Mvp70` with the configuration flag `v71`: the control unit keeps a COPY of the MSI states (renewed,
+at the price of one skipped control cycle, after every evict request), gives loads / stores a preferred core from it
+(`Model.Mvp61.euPreference`), the execute units pick by preference and read registers tagged with the runner's sequence id.
+Tied to the Go machine with 1 … 4 cores like `Model.Mvp70` (fields `m71pK`, thorough tier). -/
+namespace Props.C12
+
+/-- **C12 lower bound, MVP-7.1** -/
+theorem mvp71_lower_bound (app : App) (ctx : Model.Context) (par fuel : Nat) :
+    (Model.Mvp71.run app ctx par fuel).final.base.executed ≤ par * (Model.Mvp71.run app ctx par fuel).ticks ∧
+    ((Model.Mvp71.run app ctx par fuel).final.base.executed : Int) ≤
+      par * (Model.Mvp71.run app ctx par fuel).final.base.cycles :=
+  Proofs.Mvp71.run_executed_le app ctx par fuel
+
+/-- **the synchronisation cycle, on the tied models.**  `li s1, 64; li s4, 128; lb s0, 18(s4); sw a2, 24, s4; sw s0, 16, s1`
+with two cores (memory `0x11…`): the first store makes core 0 evict the line the load brought in; MVP-7.1's control unit
+then spends one cycle copying the MSI states.  Both machines execute the 5 instructions, create one snoop command and end
+with the same `s0`; MVP-7.0 needs 1561 cycles, MVP-7.1 1562. -/
+theorem mvp71_sync_cycle :
+    (Model.Mvp70.run Proofs.Mvp71.syncApp (Proofs.Mvp61Witness.ctx0 256) 2 2000).halt = some .offEnd ∧
+    (Model.Mvp70.run Proofs.Mvp71.syncApp (Proofs.Mvp61Witness.ctx0 256) 2 2000).final.base.cycles = 1561 ∧
+    (Model.Mvp71.run Proofs.Mvp71.syncApp (Proofs.Mvp61Witness.ctx0 256) 2 2000).halt = some .offEnd ∧
+    (Model.Mvp71.run Proofs.Mvp71.syncApp (Proofs.Mvp61Witness.ctx0 256) 2 2000).final.base.cycles = 1562 ∧
+    (Model.Mvp71.run Proofs.Mvp71.syncApp (Proofs.Mvp61Witness.ctx0 256) 2 2000).final.base.executed = 5 ∧
+    (Model.Mvp71.run Proofs.Mvp71.syncApp (Proofs.Mvp61Witness.ctx0 256) 2 2000).final.msi.nextCmd = 1 ∧
+    (Model.Mvp71.run Proofs.Mvp71.syncApp (Proofs.Mvp61Witness.ctx0 256) 2 2000).final.base.ctx.Registers.get1 8 = 0x11#32 := by
+  obtain ⟨a, b, _⟩ := Proofs.Mvp70Witness.obs_eq Proofs.Mvp71.sync_p2_70
+  obtain ⟨c, d, _, e, f, g, _⟩ := Proofs.Mvp70Witness.obs_eq Proofs.Mvp71.sync_p2_71
+  exact ⟨a, b, c, d, e, f, g⟩
+
+end Props.C12
+
+/-! ## MVP-8.0 (package M80): lower bound, and the shared L3 at work
+
+`Model.Mvp80` is `Model.Mvp71` with a shared L3 (32 lines of 128 bytes) between the L1Ds and memory (`Model.Mvp70`:
+`ccRead80`, `ccWrite80`, the snoop jobs `l3Evict` / `l1WriteBack80` / `l3WriteBack`, `finish80`; flag `Msi.v80`).  Tied to
+the Go machine with 1 … 4 cores like `Model.Mvp70` (fields `m80pK`, thorough tier). -/
+namespace Props.C12
+
+/-- **C12 lower bound, MVP-8.0** -/
+theorem mvp80_lower_bound (app : App) (ctx : Model.Context) (par fuel : Nat) :
+    (Model.Mvp80.run app ctx par fuel).final.base.executed ≤ par * (Model.Mvp80.run app ctx par fuel).ticks ∧
+    ((Model.Mvp80.run app ctx par fuel).final.base.executed : Int) ≤
+      par * (Model.Mvp80.run app ctx par fuel).final.base.cycles :=
+  Proofs.Mvp80.run_executed_le app ctx par fuel
+
+/-- **the write-back between two cores goes through the L3.**  On the witness of KF-ooo-mem
+(`lb t2, 7(zero); sh zero, 4, zero`, memory `0x11…`) MVP-8.0 ends with the half word stored with one core (1089 cycles, no
+snoop command) and with two cores (1093 cycles, one snoop command: core 0 writes the line back into the L3 in 50 cycles —
+MVP-7.0 writes it to memory and needs 1249 cycles, `mvp70_msi_keeps_store`); the L3 holds one block at the end, which
+`l3WriteBack` copies to memory. -/
+theorem mvp80_write_back_through_l3 :
+    (Model.Mvp80.run Proofs.Mvp61Witness.memApp (Proofs.Mvp61Witness.ctx0 128) 1 2000).final.base.cycles = 1089 ∧
+    (Model.Mvp80.run Proofs.Mvp61Witness.memApp (Proofs.Mvp61Witness.ctx0 128) 1 2000).final.base.ctx.Memory.take 8 = Proofs.Mvp61Witness.stored ∧
+    (Model.Mvp80.run Proofs.Mvp61Witness.memApp (Proofs.Mvp61Witness.ctx0 128) 2 2000).halt = some .offEnd ∧
+    (Model.Mvp80.run Proofs.Mvp61Witness.memApp (Proofs.Mvp61Witness.ctx0 128) 2 2000).final.base.cycles = 1093 ∧
+    (Model.Mvp80.run Proofs.Mvp61Witness.memApp (Proofs.Mvp61Witness.ctx0 128) 2 2000).final.msi.nextCmd = 1 ∧
+    (Model.Mvp80.run Proofs.Mvp61Witness.memApp (Proofs.Mvp61Witness.ctx0 128) 2 2000).final.l3.lines.length = 1 ∧
+    (Model.Mvp80.run Proofs.Mvp61Witness.memApp (Proofs.Mvp61Witness.ctx0 128) 2 2000).final.base.ctx.Memory.take 8 = Proofs.Mvp61Witness.stored := by
+  have h1 := Proofs.Mvp80.mem_p1
+  have h2 := Proofs.Mvp80.mem_p2
+  simp only [Proofs.Mvp80.obs, Prod.mk.injEq] at h1 h2
+  obtain ⟨_, a, _, _, _, _, b⟩ := Proofs.Mvp70Witness.obs_eq h1.1
+  obtain ⟨c, d, _, _, e, _, f⟩ := Proofs.Mvp70Witness.obs_eq h2.1
+  exact ⟨a, b, c, d, e, h2.2, f⟩
 
 end Props.C12
